@@ -104,6 +104,31 @@ def _lookalike_scripts():
             ["set_single_succ_outputs", "x", [["out", "u", 0]]], ["branch_exit", "g", ["out", ["b", "x"], 0]],
         ]))
         del st
+    # the same three places with a definition-backed extension type against the OPAQUE form of the same definition at
+    # other type arguments — what a HUGR loaded from JSON carries: int<5> (resolved) against int<6> (unresolved), both
+    # orders (seeded change C13-15: `ExtType.__eq__` taking an unresolved type of the same definition as equal without
+    # looking at the arguments)
+    I5 = gen_prog.INT(5)
+    d = I5[1]  # ["@def", extension, name, description, params, bound]
+    O6 = ["@opaque", d[2], "@C", [["@nat", 6]], d[1]]
+    I5V = ["@int", 3, 5]
+    O6V = ["@vext", "c", O6, ["@json", {"log_width": 6, "value": 3}], []]
+    for first, second, ft in ((I5V, O6V, I5), (O6V, I5V, O6)):
+        out.append(("case_outputs_differ", [
+            ["Conditional", "c", ["@usum", 2], []],
+            ["add_case", "c", "k0", 0], ["load", "k0", "v0", ["val", first, None]], ["set_outputs", "k0", [["out", "v0", 0]]],
+            ["add_case", "c", "k1", 1], ["load", "k1", "v1", ["val", second, None]], ["set_outputs", "k1", [["out", "v1", 0]]],
+        ]))
+        out.append(("declared_mismatch", [
+            ["Function", "f", "main", [], []], ["declare_outputs", "f", [ft]],
+            ["load", "f", "v", ["val", second, None]], ["set_outputs", "f", [["out", "v", 0]]],
+        ]))
+        out.append(("exit_mismatch", [
+            ["Cfg", "g", []], ["add_entry", "g", "e"], ["load", "e", "v", ["val", first, None]],
+            ["set_single_succ_outputs", "e", [["out", "v", 0]]], ["branch_exit", "g", ["out", ["b", "e"], 0]],
+            ["add_block", "g", "x", []], ["load", "x", "u", ["val", second, None]],
+            ["set_single_succ_outputs", "x", [["out", "u", 0]]], ["branch_exit", "g", ["out", ["b", "x"], 0]],
+        ]))
     return [{"prog": p, "inject": {"cls": cls, "pos": len(p) - 1, "expect": gen_prog.EXPECT[cls]}} for cls, p in out]
 
 
